@@ -206,6 +206,13 @@ def check(case, r, tier):
                 for pre in (".link 2000\n", ". = 2000\n"):
                     text = pre + "nop\n. = .+%s\n.byte 1\n%s" % (sp, defs)
                     judge_ok(r, None, [("p.mac", text)], K, b"\xa0\x00" + b"\x00" * n + b"\x01", text, "skip-forward")
+                    # the location counter after the skip: a label and '.' behind it
+                    text = pre + "nop\n. = .+%s\nlab: .byte 1\n.even\n.word lab, .\n%s" % (sp, defs)
+                    img = b"\xa0\x00" + b"\x00" * n + b"\x01"
+                    img += b"\x00" * (len(img) % 2)
+                    lab, dot = K + 2 + n, K + len(img)
+                    img += bytes([lab & 255, lab >> 8, dot & 255, dot >> 8])
+                    judge_ok(r, None, [("p.mac", text)], K, img, text, "skip-forward-then-label")
             text = ".link 2000\nnop\n. = %o\n.byte 1\n" % (K + 2 + n)
             judge_ok(r, None, [("p.mac", text)], K, b"\xa0\x00" + b"\x00" * n + b"\x01", text, "skip-absolute")
             text = ".link 2000\nnop\n.blkb sz\n. = tgt\n.byte 1\nsz = 3\ntgt = %o\n" % (K + 5 + n)
